@@ -23,6 +23,9 @@ Case encoding (shared with extract/c18_run.ml, see harness/prop/c18.py for the g
   listen outcomes  f found  b found with short ATR_REQ  n none  u Unsupported  i IOError  k Kbd
   callback values  T True  F False  N None  0 0  x 'x'  O object()
 """
+import errno
+import os
+
 import nfc
 import nfc.clf
 import nfc.clf.device
@@ -102,9 +105,21 @@ class StopRun(BaseException):
     """safety net: the scripted terminate() was polled far more often than any model run would"""
 
 
-DOMAINS = {'term': [False, True], 'cbs': 'TFN0xO', 'sense': 'nfpuics k'.replace(' ', ''), 'listen': 'nfbuik',
-           'tagact': 'tnik', 'present': 'nyik', 'llcact': 'ftik',
-           'llcrun': [(0, 'r'), (1, 'r'), (2, 'r'), (1, 'k'), (0, 'i')], 'emulate': '10', 'cardstep': 'bncik',
+# the family of I/O errors a driver / transport really raises.  In Python 3 IOError(errno, ..) instantiates
+# OSError SUBCLASSES for many errno values; all of them are IOError for `except IOError` and for the
+# documented contract of connect() (returns False).  The model has one code for the whole family ('i').
+IOFAM = {'i': errno.EIO, 'I': None, 'e': errno.ENODEV, 'm': errno.ETIMEDOUT, 'q': errno.EPIPE}
+IOCODES = 'iIemq'
+
+
+def model_code(c):
+    return 'i' if c in IOFAM else c
+
+
+DOMAINS = {'term': [False, True], 'cbs': 'TFN0xO', 'sense': 'nfpuicskIemq', 'listen': 'nfbuikIemq',
+           'tagact': 'tnikIemq', 'present': 'nyikIemq', 'llcact': 'ftikIemq',
+           'llcrun': [(0, 'r'), (1, 'r'), (2, 'r'), (1, 'k'), (0, 'i'), (1, 'I'), (0, 'e'), (1, 'm'), (0, 'q')],
+           'emulate': '10', 'cardstep': 'bncikIemq',
            'xchg': 'oTXP', 'peer': 'sdx'}
 NO_LIMITS = dict((k, 0) for k in DOMAINS)
 
@@ -215,9 +230,11 @@ class World(object):
             raise nfc.clf.UnsupportedTargetError('scripted')
         if code == 'c':
             raise nfc.clf.CommunicationError('scripted')
-        if code == 'i':
+        if code in IOFAM:
             self.ev.append('!raise:IOError')
-            raise IOError(5, 'scripted i/o error')
+            if IOFAM[code] is None:
+                raise IOError('scripted i/o error')
+            raise IOError(IOFAM[code], os.strerror(IOFAM[code]))      # an OSError subclass for ETIMEDOUT / EPIPE
         if code == 'k':
             self.ev.append('!raise:KeyboardInterrupt')
             raise KeyboardInterrupt()
@@ -298,6 +315,7 @@ def dep_initiator_peer(w, data):
         if pfb & 0xE0 == 0x80:
             return out(bytearray([4, 0xD5, 0x07, pfb]))
         o = w.peer.next()
+        w.throw(o)
         if o == 'x':
             raise nfc.clf.TimeoutError('scripted')
         return out(bytearray([6, 0xD5, 0x07, pfb & 3]) + (H('0140') if o == 'd' else H('0000')))
@@ -314,6 +332,7 @@ def dep_target_peer(w, data):
     if data is None or len(data) < 4 or data[1] != 0xD5 or data[2] != 0x07 or data[3] & 0xE0 != 0:
         raise nfc.clf.TimeoutError('scripted')
     o = w.peer.next()
+    w.throw(o)
     if o == 'x':
         raise nfc.clf.TimeoutError('scripted')
     pni = ((data[3] & 3) + 1) % 4
@@ -473,8 +492,8 @@ class ScriptedDevice(nfc.clf.device.Device):
             # answers, or fails with one of the CommunicationError subclasses
             o = self.w.xchg.next()
             self.w.ev.append('!xchg:' + o)
-            if o == 'i':
-                self.w.throw('i')
+            if o in IOFAM:
+                self.w.throw(o)
             rsp = canned_response(self.w.case.get('ttype', 't3'), target, bytearray(data)) if o == 'o' else None
             if o == 'X':
                 raise nfc.clf.TransmissionError('scripted')
@@ -619,10 +638,17 @@ class LiveLLC(nfc.llcp.llc.LogicalLinkController):
         w = LiveLLC.world
         w.ev.append('llc_run')
         n0 = w.polls
+        how = 'r'
         try:
             return real(terminate)
+        except (IOError, SystemExit):
+            how = 'i'         # the run loop met an input/output error (it raises SystemExit for it)
+            raise
+        except KeyboardInterrupt:
+            how = 'k'
+            raise
         finally:
-            w.llcrun.items.append((w.polls - n0, 'r'))
+            w.llcrun.items.append((w.polls - n0, how))
             w.llcrun.pos = len(w.llcrun.items)
 
     def run_as_initiator(self, terminate=lambda: False):
@@ -639,6 +665,7 @@ def _peer_exchange(w, send_data):
     if w.case.get('busy') and send_data is not None and bytes(send_data).endswith(b'DATA'):
         w.feed()
     o = w.peer.next()
+    w.throw(o)                               # the reader's transport fails (family of IOError)
     if o == 'd':
         return bytearray(b'\x01\x40')       # DISC
     if o == 'x':
@@ -1012,15 +1039,16 @@ def encode_connect(case, fuel=60, inner=60):
     cs = '-' if c is None else ':'.join([
         {'-': '-', 'N': 'o', 'x': 'o'}.get(c.get('startup', '-'), c.get('startup', '-')),
         flag(c.get('discover')), flag(c.get('connect')), flag(c.get('release'))])
-    sense = '/'.join(','.join(it if it else '-' for it in t) if t else '-' for t in case.get('sense', [])) or '-'
+    mc = lambda x: ''.join(model_code(c) for c in x)   # noqa
+    sense = '/'.join(','.join(mc(it) if it else '-' for it in t) if t else '-' for t in case.get('sense', [])) or '-'
     return ' '.join([
         'connect', 'dev=' + flag(not case.get('nodev')), 'fuel=%d' % fuel, 'inner=%d' % inner,
         'hasterm=' + flag(not case.get('noterm')), 'termd=' + case.get('termd', '1'),
         'term=' + _d(case.get('term', '')), 'cbs=' + _d(case.get('cbs', '')), 'rdwr=' + rs, 'llcp=' + ls, 'card=' + cs,
-        'sense=' + sense, 'listen=' + _d(case.get('listen', '')), 'tagact=' + _d(case.get('tagact', '')),
-        'present=' + _d(case.get('present', '')), 'llcact=' + _d(case.get('llcact', '')),
-        'llcrun=' + (','.join('%d%s' % (n, h) for n, h in case.get('llcrun', [])) or '-'),
-        'emulate=' + _d(case.get('emulate', '')), 'cardstep=' + _d(case.get('cardstep', ''))])
+        'sense=' + sense, 'listen=' + _d(mc(case.get('listen', ''))), 'tagact=' + _d(mc(case.get('tagact', ''))),
+        'present=' + _d(mc(case.get('present', ''))), 'llcact=' + _d(mc(case.get('llcact', ''))),
+        'llcrun=' + (','.join('%d%s' % (n, model_code(h)) for n, h in case.get('llcrun', [])) or '-'),
+        'emulate=' + _d(case.get('emulate', '')), 'cardstep=' + _d(mc(case.get('cardstep', '')))])
 
 
 def encode_history(case):
@@ -1028,9 +1056,9 @@ def encode_history(case):
     for op in case['ops']:
         if op[0] == 'sense':
             ops.append('s:%s:%s:%s' % (op[1] or '.', '-' if op[2] is None else op[2],
-                                       ','.join(it if it else '-' for it in op[3]) or '-'))
+                                       ','.join(''.join(model_code(c) for c in it) if it else '-' for it in op[3]) or '-'))
         elif op[0] == 'listen':
-            ops.append('l:%s:%s' % (op[1], op[2]))
+            ops.append('l:%s:%s' % (op[1], model_code(op[2])))
         else:
             ops.append('x')
     return 'history dev=%s ops=%s' % ('0' if case.get('nodev') else '1', ';'.join(ops))
